@@ -14,7 +14,8 @@ META = {
     "require": {t: ["op:shift_common", "op:shift_common_v", "op:append", "op:update", "op:filtered", "op:sliced",
                     "op:slices1d", "op:reindexed", "op:reindexed_default", "op:collapsed", "op:copy",
                     "op:column_stack", "op:set_update", "op:observe", "op:indx_save_load", "op:from_array",
-                    "observe:checked", "set_update:checked"] for t in ("quick", "thorough")},
+                    "observe:checked", "set_update:checked", "op:set_update_inplace", "bystanders:checked",
+                    "class:index_with_more_than_2^22_cells"] for t in ("quick", "thorough")},
     "assumptions": [
         "slices1d: every slice must be yielded once, labelled with its own higher coordinates; the order of the "
         "slices is not judged",
@@ -25,13 +26,21 @@ META = {
 ASPECT = "C06"
 
 
+HUGE_PROFILE = {"huge": True, "ops": ["shift_common", "shift_common_v", "append", "filtered", "reindexed", "copy",
+                                        "column_stack", "update", "sliced", "observe"]}
+
+
 def shards(tier):
     if tier == "quick":
-        return [{"label": "hist%d" % i, "n": 1200} for i in range(12)]
-    return [{"label": "hist%d" % i, "n": 60000} for i in range(16)]
+        return [{"label": "hist%d" % i, "n": 1200} for i in range(12)] + [{"label": "huge", "n": 4, "huge": True, "mem_gib": 12}]
+    return [{"label": "hist%d" % i, "n": 60000} for i in range(15)] + [{"label": "huge", "n": 60, "huge": True, "mem_gib": 12}]
 
 
 def run_shard(ctx):
+    if ctx.shard.get("huge"):
+        histories.run_histories(ctx, ASPECT, ctx.shard["n"], min_steps=2, max_steps=5, profile=HUGE_PROFILE)
+        ctx.count("class:index_with_more_than_2^22_cells", ctx.shard["n"])
+        return
     histories.run_histories(ctx, ASPECT, ctx.shard["n"])
 
 
